@@ -195,6 +195,11 @@ pub struct RemoteObs {
     pub connected: bool,
     pub eof: bool,
     pub decode_error: Option<String>,
+    /// Virtual time (ms since the start of the case) at which the harness asked for the remote to be attached.
+    pub attach_ms: u64,
+    /// Virtual time (ms) of the first op after which the runtime had completed the remote's disconnection promise,
+    /// and the reason it gave.
+    pub detached: Option<(u64, String)>,
 }
 
 pub struct Obs {
@@ -204,9 +209,10 @@ pub struct Obs {
     pub trace: Vec<(u64, Ev)>,
     pub result: Option<Result<(), String>>,
     pub stopped: bool,
-    /// Global sequence numbers at which the whole system was quiescent (after initialisation and after every
-    /// `Settle` op: all requests delivered, system idle, all frames read): no lane event can be pending across such
-    /// a point.
+    /// Global sequence numbers at which no lane event can be pending inside the agent: after initialisation, after every
+    /// `Settle` op, and after every op that left the system idle (nothing woken: every request written so far has been
+    /// processed by the agent and the runtime; what is undelivered sits in the runtime's per-remote queues or in the
+    /// remotes' channels - the runtime always drains the lanes).
     pub quiescent_marks: Vec<u64>,
 }
 
@@ -240,13 +246,15 @@ pub fn removed_between(events: &[(u64, LaneEv)], k: &MKey, lo: u64, hi: u64) -> 
     })
 }
 
-fn observe(r: &vsim::Remote) -> RemoteObs {
+fn observe(r: &vsim::Remote, attach_ms: u64, detached: Option<(u64, String)>) -> RemoteObs {
     RemoteObs {
         frames: r.frames.clone(),
         sent: r.sent.clone(),
         connected: r.is_connected(),
         eof: r.eof,
         decode_error: r.decode_error.clone(),
+        attach_ms,
+        detached,
     }
 }
 
@@ -269,13 +277,44 @@ pub fn run_case(
         // initialisation is not part of the property (and has its own 1 s timeouts)
         sim.run_until_idle();
         let mut quiescent_marks = vec![sim.now()];
+        let start = tokio::time::Instant::now();
+        let now_ms = || tokio::time::Instant::now().duration_since(start).as_millis() as u64;
+        let mut attach_ms: Vec<u64> = vec![];
+        let mut detached: Vec<Option<(u64, String)>> = vec![];
+        let mut watch = |sim: &mut Sim, attach_ms: &mut Vec<u64>, detached: &mut Vec<Option<(u64, String)>>, t: u64| {
+            while attach_ms.len() < sim.remotes.len() {
+                attach_ms.push(t);
+                detached.push(None);
+            }
+            for (i, r) in sim.remotes.iter_mut().enumerate() {
+                if detached[i].is_none() {
+                    match r.disconnection_reason() {
+                        Some(Ok(reason)) => {
+                            detached[i] = Some((t, format!("{:?}", reason)));
+                            r.completion = None;
+                        }
+                        Some(Err(_)) => {
+                            detached[i] = Some((t, "promise dropped".to_string()));
+                            r.completion = None;
+                        }
+                        None => {}
+                    }
+                }
+            }
+        };
         for op in ops {
+            let before = now_ms();
             apply_op(&mut sim, lanes, op).await;
-            if matches!(op, Op::Settle) {
+            // a remote is attached at the virtual time the op started; a detachment is seen at the time the op ended
+            let t = if matches!(op, Op::Attach { .. }) { before } else { now_ms() };
+            watch(&mut sim, &mut attach_ms, &mut detached, t);
+            if matches!(op, Op::Settle) || !sim.is_woken() {
                 quiescent_marks.push(sim.now());
             }
         }
         sim.settle();
+        let t = now_ms();
+        watch(&mut sim, &mut attach_ms, &mut detached, t);
         let n = sim.remotes.len();
         let mut probe = None;
         if !sim.is_done() && !probe_lanes.is_empty() {
@@ -284,10 +323,14 @@ pub fn run_case(
                 sim.remotes[p].send(l, Req::Sync);
             }
             sim.settle();
-            probe = Some(observe(&sim.remotes[p]));
+            probe = Some(observe(&sim.remotes[p], t, None));
         }
         Obs {
-            remotes: sim.remotes[..n].iter().map(observe).collect(),
+            remotes: sim.remotes[..n]
+                .iter()
+                .enumerate()
+                .map(|(i, r)| observe(r, attach_ms[i], detached[i].clone()))
+                .collect(),
             probe,
             trace: shared.trace(),
             result: sim.result.clone(),
@@ -299,7 +342,7 @@ pub fn run_case(
 
 pub fn dump(obs: &Obs) {
     for (i, r) in obs.remotes.iter().enumerate() {
-        eprintln!("remote {} connected={} eof={} sent:", i, r.connected, r.eof);
+        eprintln!("remote {} connected={} eof={} attached@{}ms detached={:?} sent:", i, r.connected, r.eof, r.attach_ms, r.detached);
         for s in &r.sent {
             let body = match &s.1 {
                 Req::Command(b) => String::from_utf8_lossy(b).to_string(),
@@ -716,6 +759,95 @@ fn window_states(events: &[(u64, LaneEv)], k: &MKey, t0: u64, t1: u64) -> Vec<Op
     states
 }
 
+/// Which sync request a `synced` frame can be held against.
+#[derive(Clone, Debug, PartialEq, Eq)]
+pub enum SyncedPair {
+    /// Not decidable: the session follows an unlink that was sent while older requests could still be in progress
+    /// (responses of a sync that the remote abandoned by unlinking may re-link it and arrive in any state).
+    Skip,
+    /// More `synced` frames than sync requests that could have caused them.
+    NoRequest,
+    /// `idx`-th sync request of the remote for the lane (queued / fully written at these sequence numbers).
+    /// `disturbed`: the remote queued an unlink for the lane between the request and the `synced`.
+    Req { idx: usize, queued: u64, written: Option<u64>, disturbed: bool },
+}
+
+/// Pair every `synced` frame of (remote, lane), in frame order, with the oldest sync request it can answer.
+///
+/// First link session: the k-th `synced` answers a request with index >= k (one `synced` can answer several requests,
+/// never the other way round), so it is held against the k-th request: the asserted window only gets wider.
+/// A session that starts after an `unlinked` frame: the unlink request that caused it is the last one written before
+/// that frame was read. If some quiescent / idle point lies between the moment the last older request of the lane was
+/// written and the moment the unlink was queued, every older request had been processed completely when the remote
+/// unlinked, so a `synced` of the new session can only answer a sync request queued after the unlink: the k-th `synced`
+/// of the session is held against the k-th of those. Otherwise the session is skipped.
+pub fn pair_synced_frames(rem: &RemoteObs, lane: &str, marks: &[u64]) -> Vec<SyncedPair> {
+    let reqs: Vec<(&Req, u64, Option<u64>)> = rem.sent.iter().filter(|s| s.0 == lane).map(|s| (&s.1, s.2, s.3)).collect();
+    let syncs: Vec<(usize, u64, Option<u64>)> = reqs
+        .iter()
+        .filter(|r| *r.0 == Req::Sync)
+        .enumerate()
+        .map(|(i, r)| (i, r.1, r.2))
+        .collect();
+    let unlinks: Vec<(u64, Option<u64>)> = reqs.iter().filter(|r| *r.0 == Req::Unlink).map(|r| (r.1, r.2)).collect();
+    let mut out = vec![];
+    // candidates of the current session, None = skip
+    let mut cands: Option<Vec<(usize, u64, Option<u64>)>> = Some(syncs.clone());
+    let mut k = 0usize;
+    let mut linked = false;
+    let mut prev_unlinked: Option<u64> = None;
+    let mut unlinked_frames = 0usize;
+    for f in rem.frames.iter().filter(|f| f.lane == lane) {
+        match &f.kind {
+            FrameKind::Linked => {
+                if !linked {
+                    linked = true;
+                    if let Some(u_seq) = prev_unlinked {
+                        k = 0;
+                        cands = None;
+                        // The n-th `unlinked` frame was caused by an unlink request with index >= n that was written before the
+                        // frame was read (an unlink of a lane that is not linked produces no frame; a stalled remote reads the
+                        // frame late): only decidable if that leaves exactly one request.
+                        let before: Vec<&(u64, Option<u64>)> = unlinks.iter().filter(|(_, w)| w.map(|w| w < u_seq).unwrap_or(false)).collect();
+                        let cause = if before.len() == unlinked_frames { before.last().copied() } else { None };
+                        if let Some((q_u, _)) = cause {
+                            let older: Vec<&(&Req, u64, Option<u64>)> = reqs.iter().filter(|r| r.1 < *q_u).collect();
+                            let all_written = older.iter().all(|r| r.2.is_some());
+                            let last_written = older.iter().filter_map(|r| r.2).max().unwrap_or(0);
+                            if all_written && marks.iter().any(|m| *m > last_written && *m < *q_u) {
+                                cands = Some(syncs.iter().filter(|s| s.1 > *q_u).cloned().collect());
+                            }
+                        }
+                    }
+                }
+            }
+            FrameKind::Unlinked(_) => {
+                linked = false;
+                prev_unlinked = Some(f.seq);
+                unlinked_frames += 1;
+            }
+            FrameKind::Event(_) => {}
+            FrameKind::Synced => {
+                let pair = match &cands {
+                    None => SyncedPair::Skip,
+                    Some(c) => match c.get(k) {
+                        None => SyncedPair::NoRequest,
+                        Some((idx, queued, written)) => SyncedPair::Req {
+                            idx: *idx,
+                            queued: *queued,
+                            written: *written,
+                            disturbed: unlinks.iter().any(|(q, _)| *q > *queued && *q < f.seq),
+                        },
+                    },
+                };
+                k += 1;
+                out.push(pair);
+            }
+        }
+    }
+    out
+}
+
 /// For the j-th `synced` frame of (remote, lane), read at t1, and the j-th sync request, fully
 /// written at t0: every key of the replica built from the frames of the session so far holds a value,
 /// or is absent, as the lane held it at some instant of [t0, t1]. ([t0, t1] contains the true window -
@@ -731,12 +863,7 @@ pub fn check_map_sync(
 ) -> SyncOutcome {
     let lane = MAP_LANES[li];
     let mut out = SyncOutcome::default();
-    let syncs: Vec<(u64, Option<u64>)> = rem
-        .sent
-        .iter()
-        .filter(|(l, r, _, _)| l == lane && *r == Req::Sync)
-        .map(|s| (s.2, s.3))
-        .collect();
+    let pairs = pair_synced_frames(rem, lane, marks);
     let mut universe: BTreeSet<MKey> = BTreeSet::new();
     for (_, e) in events {
         if let LaneEv::Upd(k, _) | LaneEv::Rem(k) = e {
@@ -769,23 +896,33 @@ pub fn check_map_sync(
                 }
             }
             FrameKind::Synced => {
-                let req = syncs.get(j).copied();
+                let pair = pairs.get(j).cloned().unwrap_or(SyncedPair::Skip);
                 j += 1;
                 let t1 = f.seq;
-                let Some((_, Some(t0))) = req else {
-                    v.fail(
-                        "synced-without-request",
-                        format!("remote {} lane {}: synced frame number {} at seq {} but only {} sync request(s) were written before it", ri, lane, j, t1, syncs.iter().filter(|s| s.1.map(|w| w < t1).unwrap_or(false)).count()),
-                    );
-                    continue;
+                let (idx, t0) = match pair {
+                    SyncedPair::Skip => continue,
+                    SyncedPair::NoRequest => {
+                        v.fail(
+                            "synced-without-request",
+                            format!("remote {} lane {}: synced frame number {} at seq {} cannot be the answer to any sync request of the remote (all earlier requests are answered or were abandoned by an unlink after they had completed)", ri, lane, j, t1),
+                        );
+                        continue;
+                    }
+                    SyncedPair::Req { written: Some(t0), idx, disturbed, .. } if t0 < t1 => {
+                        if disturbed {
+                            // the remote unlinked while this sync could be in progress: it may legitimately be incomplete
+                            continue;
+                        }
+                        (idx, t0)
+                    }
+                    SyncedPair::Req { written, .. } => {
+                        v.fail(
+                            "synced-without-request",
+                            format!("remote {} lane {}: synced frame number {} read at seq {} before the oldest sync request it can answer was written ({:?})", ri, lane, j, t1, written),
+                        );
+                        continue;
+                    }
                 };
-                if t0 > t1 {
-                    v.fail(
-                        "synced-without-request",
-                        format!("remote {} lane {}: synced frame number {} read at seq {} before the matching request was written (seq {})", ri, lane, j, t1, t0),
-                    );
-                    continue;
-                }
                 if !linked {
                     // reported by the frame-order rule of C03
                     continue;
@@ -794,7 +931,7 @@ pub fn check_map_sync(
                 if events.iter().any(|(q, _)| *q > t0 && *q < t1) {
                     out.syncs_racing += 1;
                 }
-                let without = sync_without_link(rem, lane, j - 1);
+                let without = sync_without_link(rem, lane, idx);
                 if without {
                     out.without_link += 1;
                 } else {
